@@ -272,6 +272,10 @@ def run(ctx: Ctx):
     r_numinv(ctx, model, tr)
     r_zero_henry_mono(ctx, model, tr, lists)
     ctx.analysed["models"] = lists["_MODELS"]
+    from ..sites import no_memoisation
+    ctx.rule("M-fresh: no caching decorator on any function of pygaps.modelling.")
+    no_memoisation(ctx, load(ctx.root), "C10", "M-fresh", ('pygaps.modelling.',),
+                   "model equations must be evaluated with the current parameters: a cached loading/pressure survives a refit or a parameter change")
 
 
 META = {
